@@ -21,6 +21,7 @@ EXPLANATION = (
     "the Windows platform test, (4) every other filesystem-mutating call in these functions is a violation. temporarySibling "
     "yields a sibling (same directory) whose name contains _secureEnoughString() and is opened with O_EXCL (requireCreate -> "
     "create()); _getFilename is executed symbolically on every path: temporary and final name differ for all inputs. "
+    "A failure of the open / write / dump leaves the function exceptionally: no handler lets control reach the rename or a normal return (must-not-pass on the exceptional edge). "
     "The handles the content goes through (FilePath.create/open, _saveTemp's open) are buffered, so a short write is retried or raises before the rename. "
     "Not decided: atomicity of rename itself, fsync/durability. "
     "Every anchor function is also checked to be entered on every call (no memoising/wrapping decorator, duplicate definition or rebinding). "
@@ -77,6 +78,16 @@ def _handle(ctx, f, oc):
     return None, False, None
 
 
+def _after_failure(g, node, targets):
+    """A path that leaves ``node`` on its EXCEPTIONAL edge (the call raised) and then reaches one of ``targets`` by normal control flow - i.e. some handler
+    swallows the failure - or None.  (The CFG sends an exception to every handler of the enclosing try, so a handler for any exception class counts.)"""
+    starts = [d for d, l in g.succ[node] if l == "exc"]
+    if not starts:
+        return None
+    p = g.path(starts, targets, edge_ok=lambda a, b, l: l != "exc", strict=False)
+    return ([node] + p) if p else None
+
+
 def _writes_in_mode(c):
     """open-like call with a writing mode constant."""
     for a in list(c.args) + [k.value for k in c.keywords]:
@@ -106,6 +117,11 @@ def _replace_rules(ctx, f, g, q, *, opens, final_texts, temp_text, platform_ok, 
         a1 = rsrc(c.args[1], f) if len(c.args) > 1 else ""
         ctx.check(a0 == temp_text and a1 in final_texts, "replace/rename-temp-over-final", ctx.construct(q, "os.rename(<temporary>, <final>)"),
                   f"{what}: the rename is not (temporary -> final): os.rename({a0}, {a1})")
+    for wn_ in {on} | {x for x in g.ids_of(oc)}:
+        w = _after_failure(g, wn_, [n for n, _ in renames] + [n for n, _ in removes])
+        ctx.check(w is None, "replace/write-failure-propagates", ctx.construct(q, g.node(wn_).ast if not isinstance(g.node(wn_).ast, (ast.With, ast.Try)) else "open temporary"),
+                  f"{what}: when opening / writing the temporary fails, a handler swallows the error and control still reaches the rename (or the removal of the final "
+                  f"path): a truncated temporary replaces the complete old content", witness=g.describe(w))
     for n, c in removes:
         a0 = rsrc(c.args[0], f) if c.args else ""
         guards = [src(t) for t, lab in edge_asserts(g, n) if lab == "T"]
@@ -238,6 +254,10 @@ def _s_save(ctx, S):
     removes = node_calls(gs, lambda c: call_name(c) in REMOVES)
     ctx.check(len(renames) == 1, "replace/single-rename", q, f"save(): {len(renames)} rename calls (exactly one expected)")
     after_ok = lambda n: n not in gs.reach([gs.entry], edge_ok=lambda a, b, l: not (a == sn and l != "exc"))
+    w = _after_failure(gs, sn, [n for n, _ in renames] + [n for n, _ in removes])
+    ctx.check(w is None, "replace/write-failure-propagates", ctx.construct(q, "self._saveTemp(<temporary>, dumpFunc)"),
+              "save(): a failure while writing the temporary is swallowed and the rename (or the removal of the final file) is still reached: a truncated '-2' file "
+              "replaces the saved application", witness=gs.describe(w))
     for n, c in renames:
         ctx.check(after_ok(n), "replace/rename-after-close", ctx.construct(q, "os.rename(<temporary>, <final>)"),
                   "save(): the rename can happen on a path on which the temporary was not completely written")
@@ -323,6 +343,13 @@ def _s_savetemp(ctx, S):
     hname = next((h for h in (_handle(ctx, st_, c)[0] for c in so) if h), None)
     ctx.check(len(dump) == 1 and len(dump[0].args) == 2 and src(dump[0].args[0]) == "self.original" and src(dump[0].args[1]) == hname,
               "replace/content-written-once", QP + "._saveTemp", "_saveTemp does not dump self.original once into the open handle")
+    gt_ = ctx.cfg(st_)
+    for c in dump + so + lowopens:
+        for cn in gt_.ids_of(c):
+            w = _after_failure(gt_, cn, [gt_.exit])
+            ctx.check(w is None, "replace/write-failure-propagates", ctx.construct(QP + "._saveTemp", "dumpFunc(self.original, <handle>)" if c in dump else "open(<temporary>)"),
+                      "_saveTemp returns normally although opening / dumping into the temporary raised (the error is swallowed by a handler): save() goes on to rename the "
+                      "incomplete temporary over the final file", witness=gt_.describe(w))
     other = [c for c in walk_local(st_) if isinstance(c, ast.Call) and call_attr(c) in FS_MUTATORS and c not in so and c not in lowopens]
     ctx.check(not other, "replace/no-other-mutation", QP + "._saveTemp", f"_saveTemp also performs {[src(c) for c in other]}")
 
@@ -403,6 +430,13 @@ MUTANTS = [
            expect_rule="replace/temporary-starts-empty"),
     Mutant("sob-handle-never-closed", SOB, "        with open(filename, \"wb\") as f:\n            dumpFunc(self.original, f)", "        f = open(filename, \"wb\")\n        dumpFunc(self.original, f)",
            expect_rule="replace/handle-closed-by-with"),
+    Mutant("sob-dump-failure-logged-and-ignored", SOB, "        with open(filename, \"wb\") as f:\n            dumpFunc(self.original, f)",
+           "        with open(filename, \"wb\") as f:\n            try:\n                dumpFunc(self.original, f)\n            except (pickle.PicklingError, OSError):\n                log.msg(\"could not save \" + self.name)",
+           expect_rule="replace/write-failure-propagates"),
+    Mutant("save-ignores-failed-temp", SOB, "        self._saveTemp(filename, dumpFunc)\n", "        try:\n            self._saveTemp(filename, dumpFunc)\n        except OSError:\n            pass\n",
+           expect_rule="replace/write-failure-propagates"),
+    Mutant("setContent-write-error-suppressed", FP, "        with sib.open(\"w\") as f:\n            f.write(content)\n", "        with sib.open(\"w\") as f:\n            try:\n                f.write(content)\n            except OSError:\n                pass\n",
+           expect_rule="replace/write-failure-propagates"),
     Mutant("sob-rename-swapped", SOB, "        os.rename(filename, finalname)\n", "        os.rename(finalname, filename)\n", expect_rule="replace/rename-temp-over-final"),
     Mutant("sob-unconditional-remove", SOB, "        if runtime.platformType == \"win32\" and os.path.isfile(finalname):", "        if os.path.isfile(finalname):", expect_rule="replace/final-removed-only-on-windows"),
     Mutant("temporary-without-random", FP, "            _secureEnoughString(ourPath) + self.clonePath(ourPath).basename() + ext", "            self.clonePath(ourPath).basename() + ext",
@@ -422,6 +456,8 @@ SILENT = [
     Silent("sob-rename-in-private-helper", SOB, "        if runtime.platformType == \"win32\" and os.path.isfile(finalname):\n            os.remove(finalname)\n        os.rename(filename, finalname)\n",
            "        self._publish(filename, finalname)\n",
            more=[(SOB, "    def _saveTemp(self, filename, dumpFunc):", "    def _publish(self, tmp, final):\n        if runtime.platformType == \"win32\":\n            if os.path.isfile(final):\n                os.remove(final)\n        os.rename(tmp, final)\n\n    def _saveTemp(self, filename, dumpFunc):")]),
+    Silent("sob-dump-failure-cleans-up-and-reraises", SOB, "        with open(filename, \"wb\") as f:\n            dumpFunc(self.original, f)",
+           "        with open(filename, \"wb\") as f:\n            try:\n                dumpFunc(self.original, f)\n            except BaseException:\n                log.msg(\"could not save \" + self.name)\n                raise"),
     Silent("os-replace", SOB, "        os.rename(filename, finalname)\n", "        os.replace(filename, finalname)\n"),
     Silent("sob-nested-platform-test", SOB, "        if runtime.platformType == \"win32\" and os.path.isfile(finalname):\n            os.remove(finalname)\n",
            "        if runtime.platformType == \"win32\":\n            if os.path.isfile(finalname):\n                os.remove(finalname)\n"),
